@@ -1025,12 +1025,14 @@ static vf::Counter c18_longkeys("pairs:objects-with-long-shared-prefix-keys(map 
 static void c18_longkey_case(vf::Rng& r) {
   JVal v = JVal::obj();
   size_t n = r.range(3, 24);
+  bool nul_family = r.below(4) == 0;  // keys of 16+ bytes with a NUL at the same offset, differing only after it
   std::string prefix(r.range(32, 48), 'p');
   for (auto& c : prefix) c = (char)r.range(0x21, r.coin() ? 0x7e : 0xff);
   for (size_t i = 0; i < n; i++) {
     std::string mid(r.range(10, 70), 'm');
     for (auto& c : mid) c = (char)('a' + r.below(2));
     std::string k = prefix + mid + "#" + std::to_string(i) + std::string(r.below(30), (char)r.range(0x21, 0xff));
+    if (nul_family) k = prefix.substr(0, 8) + std::string(1, '\0') + mid.substr(0, 6) + std::string(1, (char)('a' + i % 26)) + std::to_string(i);
     v.o.emplace_back(k, JVal::uint(i));
   }
   if (jm::has_dup_keys(v)) return;
@@ -1057,6 +1059,57 @@ static void c18_longkey_case(vf::Rng& r) {
       vf::violation("long-keys:present-member-not-found-through-map", "key of " + std::to_string(m.first.size()) + " bytes");
       break;
     }
+}
+
+// node == scalar must agree with node == Node(scalar) and with the model (kind and value)
+static vf::Counter c18_scalar("scalar-comparisons(node == bool/int/uint/double/string)");
+template <class T>
+static void scalar_check(const su::PoolNode& n, const JVal& m, T x, const JVal& mx, const char* what) {
+  c18_scalar.add();
+  vf::eval();
+  bool got = (n == x), neg = (n != x);
+  bool want = jm::equal_unordered(m, mx);
+  if (got == neg) vf::violation(std::string("scalar-not-equal-is-not-negation:") + what, jm::describe(m, 80));
+  if (got != want)
+    vf::violation(std::string(want ? "scalar-equal-compares-unequal:" : "scalar-different-compares-equal:") + what,
+                  "node " + jm::describe(m, 80) + " == " + jm::describe(mx, 80) + " gave " + std::to_string(got));
+}
+static void c18_scalar_case(vf::Rng& r) {
+  su::PoolDoc d;
+  JVal m;
+  switch (r.below(8)) {
+    case 0: m = JVal::uint(r.coin() ? UINT64_MAX - r.below(3) : (1ULL << 63) + r.below(3) - 1); break;
+    case 1: m = JVal::sint(r.coin() ? -(int64_t)r.below(3) - 1 : INT64_MIN + (int64_t)r.below(3)); break;
+    case 2: m = JVal::uint(r.below(5)); break;
+    case 3: m = JVal::dbl((double)(int64_t)r.below(5) - 2.0); break;
+    case 4: m = JVal::boolean(r.coin()); break;
+    case 5: m = JVal::null(); break;
+    case 6: m = JVal::str(r.coin() ? "abc" : "ab"); break;
+    default: m = JVal::uint(r.next()); break;
+  }
+  su::build_node(static_cast<su::PoolNode&>(d), m, d.GetAllocator());
+  vf::witness(jm::describe(m, 200));
+  vf::distinct(jm::hash_val(m) ^ r.s);
+  const su::PoolNode& n = d;
+  static const uint64_t us[] = {0, 1, 2, (1ULL << 63) - 1, 1ULL << 63, (1ULL << 63) + 1, UINT64_MAX - 1, UINT64_MAX, 4};
+  static const int64_t is[] = {0, 1, -1, -2, INT64_MIN, INT64_MIN + 1, INT64_MAX, 3, -3};
+  for (uint64_t u : us) scalar_check<uint64_t>(n, m, u, JVal::uint(u), "uint64");
+  for (int64_t i : is) scalar_check<int64_t>(n, m, i, JVal::sint(i), "int64");
+  if (m.is_num() && m.k != JVal::Dbl) {
+    scalar_check<uint64_t>(n, m, m.u, JVal::uint(m.u), "uint64-same-bits");
+    scalar_check<int64_t>(n, m, (int64_t)m.u, JVal::sint((int64_t)m.u), "int64-same-bits");
+  }
+  for (int i : {0, 1, -1, 2}) scalar_check<int>(n, m, i, JVal::sint(i), "int");
+  for (double x : {0.0, -0.0, 1.0, -1.0, -2.0, 2.0}) scalar_check<double>(n, m, x, JVal::dbl(x), "double");
+  scalar_check<bool>(n, m, true, JVal::boolean(true), "bool");
+  scalar_check<bool>(n, m, false, JVal::boolean(false), "bool");
+  if (m.k == JVal::Str) {
+    for (const char* t : {"abc", "ab", "abcd", ""}) {
+      c18_scalar.add();
+      bool got = (n == StringView(t)), want = m.s == t;
+      if (got != want || (n != StringView(t)) == got) vf::violation("scalar-string-comparison", "node \"" + m.s + "\" == \"" + t + "\" gave " + std::to_string(got));
+    }
+  }
 }
 
 static void c18_case(vf::Rng& r) {
@@ -1132,6 +1185,7 @@ int main(int argc, char** argv) {
   } else {
     S.push_back({"pairs_and_triples", 60000, 3000000, [trim_pool](uint64_t, vf::Rng& r) { c18_case(r); trim_pool(); }});
     S.push_back({"long_shared_prefix_keys", 8000, 400000, [trim_pool](uint64_t, vf::Rng& r) { c18_longkey_case(r); trim_pool(); }});
+    S.push_back({"node_vs_scalar", 4000, 100000, [](uint64_t, vf::Rng& r) { c18_scalar_case(r); }});
   }
   return vf::run(argc, argv, S);
 }
